@@ -321,6 +321,7 @@ def _stream_belongs(pid, m):
 def _streams(run):
     pid = run.pid
     _suite_trace(run)
+    _internal_trace(run)
     # C12 is about one stream: exhaustive walks can go deeper; C13 needs the forest (slices of slices): the relation is much wider, so
     # exhaustive depth stays at 2 and the thorough tier adds a third live stream and a large seeded sample of long walks
     max_streams = 1 if pid == "C12" else (3 if run.thorough else 2)
@@ -394,6 +395,38 @@ def _suite_trace(run):
     mine = [m for m in run.mismatches[n0:] if (("Slice" in m["site"] or ".file." in m["site"]) == (run.pid == "C13"))]
     run.mismatches[n0:] = mine
     run.part("repository test suite traced through the stream hooks", tests_passed=passed, events=v["events"])
+
+
+def _internal_trace(run):
+    """Pipeline V on the stream operations the library performs INTERNALLY while it packs, opens, lists, extracts and loads (also from
+    faulted images): the scenario interpreter replays small instances of the format and fault models, its first shard with the stream
+    hooks recording, and Trace_StreamOps validates every recorded operation."""
+    if not os.path.exists(os.path.join(vlib.REPO, "src", "Stream", "VerifTrace.h")):
+        return
+    rnd = {"Seed": vlib.SEED % 300, "NRand": 60 if run.thorough else 20}
+    gens = [("MC_Vol", dict(rnd, MaxFiles=2 if run.thorough else 1, Big="FALSE"), VOL_INV), ("MC_Clm", dict(rnd, MaxFiles=1), CLM_INV), ("MC_VolRef", {}, ()),
+            ("MC_VolFault", rnd, ()), ("MC_ClmFault", rnd, ()), ("MC_Map", dict(rnd, Tier='"quick"'), MAP_INV), ("MC_Bmp", dict(rnd, MaxWidth=9), BMP_INV), ("MC_Prt", rnd, ("Export",))]
+    log = os.path.join(vlib.scratch(), "internal_trace.ndjson")
+    events = 0
+    with open(log, "w") as f:
+        for module, constants, inv in gens:
+            g = vlib.generate(module, constants, invariants=inv, workers=8, small_heap=module.endswith("Fault"))
+            raw = os.path.join(vlib.scratch(), f"internal_{module}.raw")
+            r = vlib.run_scenarios(run.harness("scen"), g["file"], run.pid, trace=raw, max_crashes=200)
+            run.traces += r["scenarios"]; run.steps += r["steps"]          # (the scenarios' own oracles belong to other properties: not reported here)
+            if os.path.exists(raw):
+                f.write(json.dumps({"e": "Reset", "scenario": f"stream operations inside the library during the replay of {module}"}) + "\n")
+                for line in open(raw, errors="replace"):
+                    if line.endswith("}\n"):
+                        f.write(line); events += 1
+                os.remove(raw)
+    n0 = len(run.mismatches)
+    v = validate(run, "Trace_StreamOps", log, "internal", what="library-internal stream operations")
+    for m in run.mismatches[n0:]:
+        mk, mo = re.search(r'"kind": "(\w+)"', m["detail"]), re.search(r'"op": "(\w+)"', m["detail"])
+        m["site"] = f"internal.{mk.group(1) if mk else '?'}.{mo.group(1) if mo else '?'}/trace"
+    run.mismatches[n0:] = [m for m in run.mismatches[n0:] if (("Slice" in m["site"] or ".file." in m["site"]) == (run.pid == "C13"))]
+    run.part("library-internal stream operations during scenario replays (hooks)", events=events, modules=[g[0] for g in gens])
 
 
 def c13(run):
